@@ -1,6 +1,9 @@
 package syzgydb
 
-import "math/rand"
+import (
+	"math/rand"
+	"sync"
+)
 
 // Config holds the configuration settings for the service.
 type Config struct {
@@ -40,6 +43,9 @@ func Configure(cfg Config) {
 }
 
 type myRandomType struct {
+	// mu guards rand: a *rand.Rand is not safe for concurrent use, and the
+	// per-tree insert goroutines of the LSH index share one source.
+	mu   sync.Mutex
 	rand *rand.Rand
 }
 
@@ -47,6 +53,8 @@ func (r *myRandomType) Intn(n int) int {
 	if r.rand == nil {
 		return rand.Intn(n)
 	}
+	r.mu.Lock()
+	defer r.mu.Unlock()
 	return r.rand.Intn(n)
 }
 
@@ -54,6 +62,8 @@ func (r *myRandomType) NormFloat64() float64 {
 	if r.rand == nil {
 		return rand.NormFloat64()
 	}
+	r.mu.Lock()
+	defer r.mu.Unlock()
 	return r.rand.NormFloat64()
 }
 
@@ -61,10 +71,14 @@ func (r *myRandomType) Float64() float64 {
 	if r.rand == nil {
 		return rand.Float64()
 	}
+	r.mu.Lock()
+	defer r.mu.Unlock()
 	return r.rand.Float64()
 }
 
 func (r *myRandomType) Seed(n int64) {
+	r.mu.Lock()
+	defer r.mu.Unlock()
 	r.rand = rand.New(rand.NewSource(n))
 }
 
@@ -72,7 +86,9 @@ func (r *myRandomType) ThreadsafeNew() *myRandomType {
 	if r.rand == nil {
 		return r
 	}
-	return &myRandomType{rand.New(rand.NewSource(r.rand.Int63()))}
+	r.mu.Lock()
+	defer r.mu.Unlock()
+	return &myRandomType{rand: rand.New(rand.NewSource(r.rand.Int63()))}
 }
 
 var myRandom *myRandomType
